@@ -2003,7 +2003,15 @@ impl<R: std::io::Read> Iterator for FrameIterator<R> {
                             .unwrap_or_default();
                         Some(Ok((frame, offset)))
                     }
-                    Err(err) => Some(Err(err)),
+                    Err(err) => {
+                        // nothing more can follow the end of a truncated stream:
+                        // report it once instead of on every further call
+                        if matches!(&err, Error::Io(e) if e.kind() == std::io::ErrorKind::UnexpectedEof)
+                        {
+                            *remaining = 0;
+                        }
+                        Some(Err(err))
+                    }
                 }
             }
             None => {
